@@ -86,6 +86,12 @@ func (b *c03B) appendLines(rng *hx.Rng, f int, n int, nstreams int) {
 				k := rng.Range(1, len(buf)-1)
 				b.app(f, buf[:k])
 				buf = append([]byte{}, buf[k:]...)
+				if rng.Chance(1, 4) {
+					// the job goes idle on the unterminated line and lives through maintenance passes
+					// (W and P are no-ops while file.d is down)
+					b.step("W")
+					b.step("P")
+				}
 			} else {
 				b.app(f, buf)
 				buf = nil
@@ -414,6 +420,84 @@ func c03Depart(w *bufio.Writer, rng *hx.Rng) {
 	b.emit(w, mode, rng.Range(1, 2), bufs[rng.Intn(len(bufs))], rng.Range(1, 3), "x")
 }
 
+// a line written in two or three writes with the job idle on the unterminated head for several
+// maintenance passes (close / re-open / re-position of the descriptor): the buffered head is part of the
+// job state and must be joined with the rest. With and without a kill afterwards, with a rotation while
+// down, with the file leaving the directory after the line is complete.
+func c03MidLine(w *bufio.Writer, rng *hx.Rng) {
+	b := &c03B{}
+	nstreams := rng.Range(1, 2)
+	f := b.newFile()
+	if rng.Chance(1, 2) {
+		b.appendLines(rng, f, rng.Range(1, 2), nstreams)
+	}
+	b.step("U")
+	if rng.Chance(1, 2) {
+		b.appendLines(rng, f, rng.Range(1, 2), nstreams)
+	}
+	b.step("W")
+	for k := rng.Range(0, 3); k > 0; k-- {
+		b.step("K %d", rng.Intn(3))
+	}
+	rounds := rng.Range(1, 2)
+	for r := 0; r < rounds; r++ {
+		var d []byte
+		if rng.Chance(1, 2) {
+			d = append(d, b.line(c03Streams[rng.Intn(nstreams)], rng.Range(0, 4))...)
+		}
+		l := b.line(c03Streams[rng.Intn(nstreams)], rng.Range(0, 10))
+		cuts := []int{rng.Range(1, len(l)-2)}
+		if rng.Chance(1, 3) && cuts[0]+1 < len(l)-1 {
+			cuts = append(cuts, rng.Range(cuts[0]+1, len(l)-1))
+		}
+		b.app(f, append(d, l[:cuts[0]]...))
+		b.step("W")
+		b.step("P")
+		if len(cuts) == 2 {
+			b.app(f, l[cuts[0]:cuts[1]])
+			b.step("W")
+			b.step("P")
+			cuts[0] = cuts[1]
+		}
+		rest := append([]byte{}, l[cuts[0]:]...)
+		if rng.Chance(1, 2) {
+			rest = append(rest, b.line(c03Streams[rng.Intn(nstreams)], rng.Range(0, 4))...)
+		}
+		b.app(f, rest)
+		b.step("W")
+		for k := rng.Range(0, 3); k > 0; k-- {
+			b.step("K %d", rng.Intn(3))
+		}
+	}
+	files := []int{f}
+	switch rng.Intn(4) {
+	case 0: // the file leaves the directory once the line is complete
+		b.app(f, b.line(c03Streams[rng.Intn(nstreams)], 1))
+		b.step("O %d", f)
+		b.step("KQ")
+		files = nil
+	case 1, 2: // kill, maybe a rotation while down, restart
+		if rng.Chance(1, 2) {
+			b.step("S")
+		}
+		b.step("X")
+		if rng.Chance(1, 2) {
+			g := b.rotate(f)
+			files = append(files, g)
+			b.appendLines(rng, g, 1, nstreams)
+		}
+		b.appendLines(rng, f, 1, nstreams)
+		b.step("U")
+	}
+	_ = files
+	mode := "a"
+	if rng.Chance(1, 2) {
+		mode = "s"
+	}
+	bufs := []int{16, 64, 4096}
+	b.emit(w, mode, rng.Range(1, 2), bufs[rng.Intn(len(bufs))], rng.Range(1, 3), "x")
+}
+
 func genC03Cases(w *bufio.Writer, rng *hx.Rng, tier string) {
 	nrand, ntr, nsave, sweepStep := 300, 40, 8, 2
 	if tier == "thorough" {
@@ -440,6 +524,13 @@ func genC03Cases(w *bufio.Writer, rng *hx.Rng, tier string) {
 	}
 	for i := 0; i < ndep; i++ {
 		c03Depart(w, rng)
+	}
+	nmid := 30
+	if tier == "thorough" {
+		nmid = 250
+	}
+	for i := 0; i < nmid; i++ {
+		c03MidLine(w, rng)
 	}
 	for i := 0; i < nrand; i++ {
 		c03Random(w, rng, false)
